@@ -105,11 +105,59 @@ def check_C05(tier):
     t0 = time.time()
     agg = Agg('C05')
     agg.add(_gencheck('C05', tier, extra=['--evts', '2000000' if tier == 'thorough' else '200000']))
+    _c05_list_variants(agg)
     rule = ('(1) every published background name x N tapes: event from genbbsub(name) must be bit-identical to the composition of the nuclide\'s own public scheme '
             'function(s) (hand-written oracle table) on the same deviates; (2) every ordered pair of names where one is a prefix of the other: the event must not equal '
             'the concatenation of the two schemes; (3) README lists == .lis files == API sets, every published name initialises and shoots, every accepted candidate '
-            'name in {element}x{A=1..260}x{"",m,m-B-,m-EC} is published, mode tables agree; distinct = (name, path signature) + pairs + catalogue items')
+            'name in {element}x{A=1..260}x{"",m,m-B-,m-EC} is published, mode tables agree; (4) the three list files re-saved in five layouts (CR LF, no final newline, trailing blanks, comment and blank line in front, CR LF without final newline) give the same API sets (one helper process per layout); distinct = (name, path signature) + pairs + catalogue items')
     return verdict(agg, tier, t0, rule, GEN_ASSUME[:2] + ['the name->scheme table (checks/schemes.hpp) is written from the reference dispatch and the README, not from genbbsub.cc'], min_eval=1000)
+
+
+def _c05_list_variants(agg):
+    """the resource list files re-saved in another layout (CR LF line ends, no final newline, trailing blanks, a comment and a blank line in front)
+    hold the same catalogue: the API sets must not change.  One helper process per variant (the library caches its resources in statics)."""
+    import shutil
+    b = compile_bin('listdump', ['checks/listdump.cc'], 'fast')
+    src = os.path.join(REPO, 'resources')
+    base = os.path.join(BUILD, 'run', 'c05-lists')
+    shutil.rmtree(base, ignore_errors=True)
+    names = ['dbd_isotopes.lis', 'background_isotopes.lis', 'dbd_modes.lis']
+
+    def dump(resdir):
+        r = subprocess.run([b], stdout=subprocess.PIPE, stderr=subprocess.DEVNULL, env=dict(run_env(), BXDECAY0_RESOURCE_DIR=resdir), timeout=120)
+        return sorted(r.stdout.decode('latin-1').split('\n'))
+    want = dump(src)
+    variants = {
+        'crlf': lambda t: t.replace(b'\n', b'\r\n'),
+        'no-final-newline': lambda t: t.rstrip(b'\n'),
+        'trailing-blanks': lambda t: t.replace(b'\n', b'  \t\n'),
+        'comment-and-blank-in-front': lambda t: b'# re-saved copy\n\n' + t,
+        'no-final-newline+crlf': lambda t: t.rstrip(b'\n').replace(b'\n', b'\r\n'),
+    }
+    for vn, fn_ in variants.items():
+        d = os.path.join(base, vn)
+        os.makedirs(os.path.join(d, 'description'))
+        for e in os.listdir(src):
+            if e != 'description':
+                os.symlink(os.path.join(src, e), os.path.join(d, e))
+        for e in os.listdir(os.path.join(src, 'description')):
+            sp = os.path.join(src, 'description', e)
+            if e in names:
+                open(os.path.join(d, 'description', e), 'wb').write(fn_(open(sp, 'rb').read()))
+            else:
+                os.symlink(sp, os.path.join(d, 'description', e))
+        got = dump(d)
+        agg.evaluations += 1
+        agg.labels['list-variant:' + vn] = 1
+        if got == want:
+            agg.nontrivial.add('list-variant|' + vn)
+            continue
+        missing = [x for x in want if x not in got][:4]
+        extra = [x for x in got if x not in want][:4]
+        path = os.path.join(REPLAY, 'C05-listvariant-%s.txt' % vn)
+        os.makedirs(REPLAY, exist_ok=True)
+        open(path, 'w').write('resource directory: %s\nvariant: %s\nmissing: %r\nextra: %r\nreproduce: BXDECAY0_RESOURCE_DIR=<that directory> build/bin/fast/listdump\n' % (d, vn, missing, extra))
+        agg.failures.append({'sig': 'C05|catalogue|list-layout:%s' % vn, 'msg': 'the catalogue read from list files re-saved as "%s" differs from the shipped one: missing %r, extra %r' % (vn, missing, extra), 'replay': path})
 
 
 def _fuzz(name, srcs, prop, secs, jobs, agg, max_len=2048, extra=None, timeout_s=10, min_secs_replay=0, ref=False):
@@ -658,6 +706,7 @@ def setup_all():
     compile_bin('threads', ['checks/threads.cc'], 'fast', inc=[refd])
     compile_bin('threads', ['checks/threads.cc'], 'tsan', inc=[refd])
     compile_bin('api_ref', ['checks/api_ref.cc'], 'fast')
+    compile_bin('listdump', ['checks/listdump.cc'], 'fast')
     _killshim()
     compile_bin('gacheck', ['checks/gacheck.cc'], 'san')
     _g4bin()
